@@ -131,7 +131,13 @@ def run(sh):
                         sh.violation("unify-unparseable:%s|%s" % (A, B), "selector-unify(%s, %s) = %r cannot be parsed: %s" % (A, B, ut, ex), {"expr": exprs[ci * 6 + 2]}, {"A": A, "B": B, "out": ut})
                         su = None
                     if su is not None:
-                        us2 = sel.universes(sel.atoms_of(sa + sb + su), nodes)
+                        # a result with four compounds in one complex selector can only be told apart from its operands
+                        # on four-element DOMs: use them whenever the alphabet keeps that affordable
+                        n_u = nodes
+                        if nodes < 4 and any(len(cx) >= 4 for cx in su):
+                            n_u = 4
+                            sh.count("unify_judged_on_4_element_doms")
+                        us2 = sel.universes(sel.atoms_of(sa + sb + su), n_u, max_bits=8_000_000 if n_u == nodes else 1_100_000)
                         v = sel.subset_violation(us2, su, sa) or sel.subset_violation(us2, su, sb)
                         if v:
                             # which complex selectors of the result are the unsound ones
